@@ -68,6 +68,12 @@ func RaceKey(report string) (string, bool) {
 			if isStd {
 				continue
 			}
+			// the transport's read / write shims stand for the system call that
+			// fills or drains the CALLER's buffer: that access is the caller's
+			if strings.HasPrefix(f, "verifharness/sim.(*Endpoint).Read(") || strings.HasPrefix(f, "verifharness/sim.(*Endpoint).Write(") ||
+				strings.HasPrefix(f, "verifharness/sim.ReadHalf.Read(") || strings.HasPrefix(f, "verifharness/sim.WriteHalf.Write(") {
+				continue
+			}
 			if strings.HasPrefix(f, varlinkPkg) && !strings.Contains(f, "/simhook.") && !strings.HasPrefix(f, varlinkPkg+".Verif") {
 				fn = f
 				if k := strings.LastIndex(fn, "("); k > 0 && strings.HasSuffix(fn, ")") {
